@@ -117,7 +117,7 @@ def bounds_for(ctx):
     B = [("1 activity x 6 control programs x 4 profiles x cores 1,2", lambda: scenarios(1, FULL, (1, 2)))]
     if ctx.quick:
         for combo in RED:
-            B.append(("2 activities x (%s, %s) x cores 1,2" % combo, (lambda cb: lambda: scenarios(2, [cb], (1, 2)))(combo)))
+            B.append(("2 activities x (%s, %s) x 1 core" % combo, (lambda cb: lambda: scenarios(2, [cb], (1,)))(combo)))
         return B
     for e in E:
         B.append(("2 activities x %s x 4 profiles x cores 1,2" % e,
